@@ -168,7 +168,7 @@ def cmd_check(args):
             rc = 1
         elif inconcl:
             rc = 2
-        if os.environ.get("VERIF_REPO") or args.only:
+        if os.environ.get("VERIF_REPO") or os.environ.get("VERIF_NO_EVIDENCE") or args.only:
             # dev / triage runs (another tree than /repo, or a sub-selection) never touch the evidence
             log("note: evidence file not written (VERIF_REPO or --only run)")
         else:
